@@ -316,6 +316,24 @@ type recorder struct {
 	body     string
 	failWait bool
 	retry    bool
+	opened   int // response bodies handed out
+	closed   int // of which closed
+}
+
+// trackedBody counts Close calls: every response body has to be closed, or the
+// connection behind it is never reused.
+type trackedBody struct {
+	io.Reader
+	rec    *recorder
+	closed bool
+}
+
+func (b *trackedBody) Close() error {
+	if !b.closed {
+		b.closed = true
+		b.rec.closed++
+	}
+	return nil
 }
 
 var errLimiter = errors.New("harness: limiter says no")
@@ -337,7 +355,8 @@ func (r *recorder) RoundTrip(req *http.Request) (*http.Response, error) {
 	if r.retry {
 		h.Set("Retry-After", "0")
 	}
-	return &http.Response{StatusCode: r.status, Status: fmt.Sprintf("%d X", r.status), Body: io.NopCloser(strings.NewReader(r.body)), Header: h, Request: req, ProtoMajor: 1, ProtoMinor: 1}, nil
+	r.opened++
+	return &http.Response{StatusCode: r.status, Status: fmt.Sprintf("%d X", r.status), Body: &trackedBody{Reader: strings.NewReader(r.body), rec: r}, Header: h, Request: req, ProtoMajor: 1, ProtoMinor: 1}, nil
 }
 
 func elemXML(e Elem) string {
@@ -558,6 +577,9 @@ func check(c Case) error {
 	}
 	if len(rec.reqs) != 1 {
 		return harness.Failf("C20/request-count", "%s issued %d requests (err=%v)", ep.name, len(rec.reqs), err)
+	}
+	if rec.closed != rec.opened {
+		return harness.Failf("C20/body-not-closed", "%s (status %d): %d response bodies received, %d closed", ep.name, c.Status, rec.opened, rec.closed)
 	}
 	if c.Limiter == 1 {
 		if len(rec.waitAt) != 1 || rec.waitAt[0] > rec.reqAt[0] {
